@@ -54,7 +54,10 @@ def to_file_doc(d):
     def named(name, alias):
         return {"name": alias} if nomod in (2, 3) else {"name": name, "module": MOD}
 
-    doc = {"model": {"name": "FxModel", "module": MOD, "params": {"seed": 5, "closed": bool(d.get("closed"))}}, "systems": [], "agents": []}
+    mparams = {"seed": 5, "closed": bool(d.get("closed"))}
+    if not mparams["closed"] and nomod % 2 == 0:
+        del mparams["closed"]          # a parameter at its default is not declared (every other description)
+    doc = {"model": {"name": "FxModel", "module": MOD, "params": mparams}, "systems": [], "agents": []}
     if d["pre"]:
         doc["pre_model_decode"] = hk("pre_model")
     if d["post"]:
